@@ -470,7 +470,10 @@ def check_gridded(case, ctx):
 
 @st.composite
 def gridded_cases(draw):
-    nxg, nyg = draw(st.integers(2, 4)), draw(st.integers(2, 4))
+    # (wide grids: more columns than rows with >= 3 rows, and the reverse)
+    nxg, nyg = draw(st.integers(2, 6)), draw(st.integers(2, 4))
+    if draw(st.integers(0, 4)) == 0:
+        nxg, nyg = nyg, nxg
 
     def grid(n):
         steps = draw(st.lists(st.floats(20, 300), min_size=n - 1, max_size=n - 1))
@@ -483,11 +486,12 @@ def gridded_cases(draw):
             'oversampling': draw(st.sampled_from([1, 2, 4, [2, 4], [3, 1]])),
             'seed': draw(st.integers(0, 10**5)),
             'shuffle': draw(st.lists(st.integers(0, 99), min_size=1, max_size=16)),
-            'fill_value': draw(st.sampled_from([0.0, 0.0, -5.0])),
+            # (integer-typed fill values must not change the output dtype)
+            'fill_value': draw(st.sampled_from([0.0, 0.0, -5.0, 0, -3])),
             'flux': draw(st.sampled_from([1.0, 12.5])),
             'history': [list(h) for h in draw(st.lists(
                 st.tuples(st.sampled_from(['eval', 'eval', 'copy', 'deepcopy', 'flux']),
-                          st.floats(0, 1), st.floats(0, 1)), min_size=0, max_size=6))],
+                          st.floats(0, 1), st.floats(0, 1)), min_size=0, max_size=10))],
             'where': list(draw(st.tuples(st.sampled_from(['node', 'inside', 'inside',
                                                           'outside']),
                                          st.integers(0, 9), st.integers(0, 9)))),
